@@ -3473,6 +3473,7 @@ class SetInstance(object):
         if not isinstance(item, attr.py_type): return False
         if item._session_cache_ is not obj._session_cache_:
             throw(TransactionError, 'An attempt to mix objects belonging to different transactions')
+        if item._status_ in del_statuses: return False  # it was taken out of every collection when it was deleted
 
         reverse = attr.reverse
         if not reverse.is_collection:
